@@ -1262,7 +1262,7 @@ func (n RangeNumber) IsMax() bool {
 }
 
 func (n RangeNumber) IsMin() bool {
-	return n.isMax
+	return n.isMin
 }
 
 func (n RangeNumber) Integer() *int64 {
@@ -1322,6 +1322,14 @@ func (n RangeNumber) getFloat64() float64 {
 }
 
 func (n RangeNumber) Compare(v val.Value) (int64, error) {
+	// the keywords stand for the lowest and highest value the base type allows, which
+	// no value of that type is outside of
+	if n.isMin {
+		return -1, nil
+	}
+	if n.isMax {
+		return 1, nil
+	}
 	if v.Format().IsList() {
 		var cmp0 int64
 		var err0 error
